@@ -143,8 +143,13 @@ let vis_cmd wl ops =
 let scene_cmd rules world scene0 =
   let ncomps s = if s = "" then [] else List.map (fun kv -> match String.split_on_char '=' kv with
     | [k; v] -> (n_of_int (int_of_string k), n_of_int (int_of_string v)) | _ -> failwith "kv") (String.split_on_char '+' s) in
-  let groups = if rules = "-" then [] else
-    List.map (fun g -> List.map (fun k -> n_of_int (int_of_string k)) (String.split_on_char '+' g)) (String.split_on_char ';' rules) in
+  (* a rule group is `k+k+k` (default priority = number of components) or `k+k@P` (registered with priority P) *)
+  let rule_of g =
+    let comps c = List.map (fun k -> n_of_int (int_of_string k)) (String.split_on_char '+' c) in
+    match String.split_on_char '@' g with
+    | [c; p] -> { r_priority = n_of_int (int_of_string p); r_comps = comps c }
+    | _ -> rule_new (comps g) in
+  let groups = if rules = "-" then [] else List.map rule_of (String.split_on_char ';' rules) in
   let world = if world = "-" then [] else List.map (fun e -> match String.split_on_char ':' e with
     | [i; m] -> { w_id = n_of_int (int_of_string i); w_marked = (m = "1"); w_comps = [] }
     | [i; m; cs] -> { w_id = n_of_int (int_of_string i); w_marked = (m = "1"); w_comps = ncomps cs }
@@ -153,7 +158,7 @@ let scene_cmd rules world scene0 =
     | [i] -> (n_of_int (int_of_string i), [])
     | [i; cs] -> (n_of_int (int_of_string i), ncomps cs)
     | _ -> failwith "sent") (String.split_on_char ';' scene0) in
-  match rules_insert_all [] (List.map rule_new groups) with
+  match rules_insert_all [] groups with
   | Ok rules ->
     let refl = List.map n_of_int [0; 1; 2; 3] in
     (match replicate_into_res rules refl [] scene0 world with
